@@ -10,7 +10,7 @@ for one parser object parsing the list forwards and then backwards, for a fresh 
 Compiler.parser.parse and for rzilcompiler.Parser.parse_single.
 
 A mismatch is attributed to a recorded finding only if the Lark tree is EXACTLY what the finding's
-rule predicts: every rule is a transformation of the text (K_PTR, K_KWSPLIT, K_INCSPLIT), of the choice
+rule predicts: every rule is a transformation of the text (K_PTR, K_KWSPLIT, K_INCSPLIT, K_CASTID), of the choice
 of else binding (K_ELSE) or of the reference AST (K_ARGLESS, K_KWID, K_JUMPELSE, K_PAIR) such that the
 reference parse of the transformed input equals the Lark tree (explain()).  Any other mis-parse of the same
 construct is a VIOLATION.  Proposed known-finding entries: vf/props/c17.findings.json.
@@ -44,6 +44,7 @@ K_KWSPLIT = "KF-C17-keyword-prefix-splits-identifier"
 K_INCSPLIT = "KF-C17-incdec-read-as-two-operators"
 K_ELSE = "KF-C17-dangling-else-binds-outermost-if"
 K_JUMPELSE = "KF-C17-jump-before-else-is-sub-routine"
+K_CASTID = "KF-C17-cast-read-as-parenthesised-identifier"
 
 # ---------------------------------------------------------------------------------------
 # (A) the string space
@@ -175,7 +176,7 @@ def fam_cast(tier):
         forms = [
             "(%s)x", "(%s)+y", "(%s)-x", "(%s)(x)", "(%s)(x)+y", "(%s)x+y", "(%s)(x+y)", "((%s)x)", "(%s)~x", "(%s)!x", "(%s)x++",
             "(%s)x * y", "(%s)x << 2", "-(%s)x", "~(%s)x", "(%s)(x) * (y)", "(%s)(x, y)", "(%s)f(x)", "(%s)x ? y : z", "(%s)(uint16_t)x", "sizeof(%s)", "sizeof(%s) + 1",
-            "(%s)RsV", "(%s)siV", "(%s)0x10", "(%s)({ a; b; })",
+            "(%s)RsV", "(%s)siV", "(%s)0x10", "(%s)({ a; b; })", "b - (%s)-x", "b - (%s)+x", "b + (%s)-x", "b * (%s)-x", "b - (%s)*x", "b - (%s)~x", "b - (%s)x - y", "b << (%s)-x",
         ]
         for f in forms:
             out.append(("cast-vs-paren", W(f % T)))
@@ -616,6 +617,41 @@ def kwsplit_variants(text):
     return out
 
 
+TYPEID = "__TYPEID%d__"
+TYPEID_RE = re.compile(r"^__TYPEID(\d+)__$")
+SINGLE_WORD_TYPE = re.compile(r"\(\s*((?:u?int(?:8|16|32|64)_t)|(?:size(?:1|2|4|8|16)[su]_t)|int|unsigned|signed|long|short|char|float|double|void)\s*\)")
+
+
+def castid_variants(text):
+    """K_CASTID: IDENTIFIER also matches type names, so `(T)` is also a parenthesised identifier; where the
+    earlier grammar alternative leads there, `b - (int32_t)-a` is `(b - int32_t) - a`.  Predicted tree = reference
+    parse with that type name taken as a plain identifier.  -> [(text', [type names])]"""
+    ms = list(SINGLE_WORD_TYPE.finditer(text))
+    out = []
+    sets = [[m] for m in ms] + ([ms] if len(ms) > 1 else [])
+    for chosen in sets:
+        names = []
+        t2 = text
+        for m in sorted(chosen, key=lambda m: -m.start()):
+            t2 = t2[: m.start(1)] + "\0%d\0" % len(names) + t2[m.end(1) :]
+            names.append(m.group(1))
+        for k in range(len(names)):
+            t2 = t2.replace("\0%d\0" % k, TYPEID % k)
+        out.append((t2, names))
+    return out
+
+
+def make_r_typeid(names):
+    def r(n):
+        if n[0] == "id":
+            m = TYPEID_RE.match(n[1])
+            if m and int(m.group(1)) < len(names):
+                return ("plainid", names[int(m.group(1))])
+        return n
+
+    return r
+
+
 def unary_amp_blanked(text):
     """text with exactly one blank on each side of every & that stands where C expects a prefix operator
     (more than one blank does not help: %ignore WS takes the whole run and leaves PTR no character)"""
@@ -720,11 +756,13 @@ def explain(text, lark_c, parse_fn=None):
     if lark_c is not None:
         variants = []  # (ids, raw reference AST, explicit pairs, lark canonical to compare with)
 
-        def add_text(ids, t2, l2):
+        def add_text(ids, t2, l2, post=None):
             try:
                 raw, pairs = N.ref_parse(t2)
             except cparse.CSyntaxError:
                 return
+            if post is not None:
+                raw = rmap(raw, post)
             variants.append((ids, raw, pairs, l2))
 
         add_text((), text, lark_c)
@@ -734,6 +772,8 @@ def explain(text, lark_c, parse_fn=None):
             add_text((K_KWSPLIT,), t2, lark_c)
         for t2 in incsplit_variants(text):
             add_text((K_INCSPLIT,), t2, lark_c)
+        for t2, names in castid_variants(text):
+            add_text((K_CASTID,), t2, lark_c, make_r_typeid(names))
         ev = else_variant(text)
         if ev is not None:
             variants.append(((K_ELSE,), ev[0], ev[1], lark_c))
